@@ -175,7 +175,8 @@ def assignments_to(fnode, name):
 
 def single_def(fnode, name):
     """The unique plain assignment ``name = expr`` in the function, or None."""
-    defs = assignments_to(fnode, name)
+    # a comprehension variable of the same name lives in the comprehension's own scope: it does not bind the function's local
+    defs = [d for d in assignments_to(fnode, name) if not isinstance(d[0], ast.comprehension)]
     if len(defs) == 1 and isinstance(defs[0][1], ast.AST):
         return defs[0][1]
     if len(defs) > 1 and all(isinstance(v, ast.AST) for _, v in defs) and len({ast.dump(v) for _, v in defs}) == 1:
